@@ -261,6 +261,25 @@ func (r *runner) runAPI(a *apiCall) (obs c01.Obs, panicked any) {
 	return c01.MakeObs(r.log, v, err), nil
 }
 
+// limitMidRun builds a recursion during which a host function configures the stack depth limit
+// (no limit before): the limit counts all nesting from the bottom of the stack, so exactly as
+// many further calls are admitted as if it had been configured before Run.
+func limitMidRun(variant int) []c01.N {
+	id, num := c01.Id, c01.Num
+	at := 1 + variant%4    // the depth (counting down from the start value) at which SL is called
+	lim := 4 + variant/4%5 // the limit it sets
+	start := lim + 3
+	body := []c01.N{c01.Expr(c01.Call(id("H"), id("d"))),
+		c01.If(c01.Bin("===", id("d"), num(start-at)), c01.Expr(c01.Call(id("SL"), num(lim))), nil),
+		c01.If(c01.Bin(">", id("d"), num(0)), c01.Return(c01.Bin("+", num(1), c01.Call(id("lrec"), c01.Bin("-", id("d"), num(1))))), nil), c01.Return(num(0))}
+	return []c01.N{c01.FDecl("lrec", []string{"d"}, body...),
+		c01.Try([]c01.N{c01.Expr(c01.Call(id("H"), c01.Str("ok"), c01.Call(id("lrec"), num(start))))}, "e",
+			[]c01.N{c01.Expr(c01.Call(id("H"), c01.Str("caught"), c01.Bin("instanceof", id("e"), id("RangeError"))))}, true, nil, false),
+		// the limit stays configured: a second recursion on the same runtime meets it at once
+		c01.Try([]c01.N{c01.Expr(c01.Call(id("H"), c01.Str("again"), c01.Call(id("lrec"), num(lim-2))))}, "e",
+			[]c01.N{c01.Expr(c01.Call(id("H"), c01.Str("caught again"), c01.Bin("instanceof", id("e"), id("RangeError"))))}, true, nil, false)}
+}
+
 type runner struct {
 	vm  *otto.Otto
 	log [][]any
@@ -355,6 +374,9 @@ func Check(c *core.Ctx) (map[string]any, []string, error) {
 			// a stack depth limit and a recursion around it (the limit admits exactly limit-1 nested calls)
 			limit = 2 + i%7
 			p = append(p, recursion(limit, i)...)
+		} else if i%3 == 0 && i%4 == 0 {
+			// the stack depth limit configured by a host function in the middle of a recursion
+			p = append(p, limitMidRun(i/12)...)
 		} else if i%3 == 1 && i%2 == 0 {
 			// an API call made by a host function while the script runs
 			p = append(p, nested(i/6)...)
@@ -563,7 +585,8 @@ func busyLoops(c *core.Ctx) (int, error) {
 			defer wg.Done()
 			defer func() { <-sem }()
 			vm := otto.New()
-			vm.Interrupt = make(chan func(), 1)
+			// the channel is unbuffered, of capacity 1 or larger: the function must be received in every case
+			vm.Interrupt = make(chan func(), []int{1, 0, 3}[len(src)%3])
 			payload := &payloadT{"busy"}
 			doneCh := make(chan any, 1)
 			var runErr error
@@ -572,7 +595,7 @@ func busyLoops(c *core.Ctx) (int, error) {
 				_, runErr = vm.Run(src)
 			}()
 			time.Sleep(20 * time.Millisecond)
-			vm.Interrupt <- func() { panic(payload) }
+			go func() { vm.Interrupt <- func() { panic(payload) } }()
 			select {
 			case p := <-doneCh:
 				mu.Lock()
